@@ -151,6 +151,7 @@ pub fn composed_auts(g: &mut G, depth: usize, count: usize) -> Vec<AutSpec> {
 
 pub fn c18(g: &mut G) {
     g.emit("!scale patlong".into());
+    g.emit("!authistory 1".into());
     let mut specs: Vec<AutSpec> = vec![];
     // every leaf, every unary and a sample of binary compositions, then random depth 3
     let pats: Vec<Vec<u8>> = universe(b"ab", 2);
@@ -227,6 +228,8 @@ pub fn c18(g: &mut G) {
 
 pub fn c19(g: &mut G) {
     g.emit("!scale mergebig".into());
+    g.emit("!clirerun set".into());
+    g.emit("!clirerun map".into());
     let keyu: Vec<&str> = vec!["a", "b", "ab", "abc", "k1", "k2", "zz", "m"];
     let modes = ["sum", "max", "min", "set"];
     let n = if g.thorough { 1500 } else { 220 };
@@ -341,6 +344,8 @@ pub fn c19(g: &mut G) {
 
 pub fn c20(g: &mut G) {
     g.emit("!scale sizes".into());
+    g.emit("!reuse 7".into());
+    g.emit("!conc 7".into());
     // boundary grid of header / footer fields for lengths 0..64
     let versions: [u64; 8] = [0, 1, 2, 3, 4, 255, 1 << 32, u64::MAX];
     for len in 0..=64usize {
